@@ -6,7 +6,7 @@ namespace Interp
 open Stack
 
 -- the second group of rules unfolds together with the first
-attribute [simp] Spec.stepMore Impl.stepMore Typing.stepMore
+attribute [simp] Spec.stepMore Impl.stepMore Typing.stepMore Spec.stepExt Impl.stepExt Typing.stepExt Spec.unV Impl.execUn Typing.unTy
 
 theorem fromComb_cons (a : Val) (xs : List Val) (r : Val) (h : Impl.fromComb xs = .ok r) :
     Impl.fromComb (a :: xs) = .ok (.pair a r) := by
